@@ -962,6 +962,9 @@ class RogueConn(refdc.Conn):
                 auth = dict(type=a["type"], level=a["level"], ctx=a["ctx"], token=b"")
             elif self.mode == "garbage-token":
                 auth = dict(type=a["type"], level=a["level"], ctx=a["ctx"], token=b"\x00" * 40)
+            elif self.mode.startswith("level"):
+                # the (unprotected) trailer of the ack announces a weaker protection level than the client asked for
+                auth = dict(type=a["type"], level=int(self.mode[5:]), ctx=a["ctx"], token=b"" if int(self.mode[5:]) % 2 else a["token"])
             else:  # echo the client's own token back
                 auth = dict(type=a["type"], level=a["level"], ctx=a["ctx"], token=a["token"])
             flags = 3 | (d["flags"] & rpc.PFC_SIGN)
@@ -1109,12 +1112,12 @@ def run_shard(shard, tier, seed, acc) -> None:
         n = 0
         for op in ("protect", "unprotect"):
             for api in ("sync", "async"):
-                for mode in ("no-trailer", "empty-token", "garbage-token", "echo-token", "no-trailer+keep-trailer", "empty-token+keep-trailer", "port135"):
+                for mode in ("no-trailer", "empty-token", "garbage-token", "echo-token", "no-trailer+keep-trailer", "empty-token+keep-trailer", "port135", "level0", "level1", "level2", "level3", "level4", "level5", "level7"):
                     for sec in ("scripted", "scripted2", "ntlm"):
                         run_rogue(seed, op, api, mode, sec, acc)
                         n += 1
         acc.ev(n)
-        acc.sample({"rogue peer": "handshake replies without / with empty / garbage / echoed token, then a cleartext GetKey reply with its own envelope"})
+        acc.sample({"rogue peer": "handshake replies without / with empty / garbage / echoed token / a weaker protection level (0-5, 7) in the ack trailer, then a cleartext GetKey reply with its own envelope"})
         return
     if shard[0] == "rpc":
         _, api, sg, part, nparts = shard
